@@ -444,7 +444,7 @@ def install_core(R):
     R.add(CR + "infer_shape", result="V", pure=True, assumed=True,
           notes="bounded stand-in only (recursion on len(x[0]) with try/except TypeError): nested list shapes up to depth 3 / width 3 "
                 "are enumerated on the real function by replay/C02.py")
-    R.add(CR + "nan_like_result", result="V", pure=True, props=["C02"],
+    R.add(CR + "nan_like_result", result="V", pure=True, props=["C02", "C09"],
           loops={"comp0": dict(idx="_k", inv=[
               ("elementwise", "is_seq(_acc_comp0) and slen(_acc_comp0) == _k and forall(lambda k: implies(0 <= k and k < _k, "
                               "sget(_acc_comp0, k) == NanOfShape(sget(iter_(res), k))))")])},
